@@ -1047,6 +1047,10 @@ func (agg *aggregate) Process(ctx context.Context, man gdbi.Manager, in gdbi.InP
 						c++
 					}
 				}
+				if len(fieldValues) == 0 {
+					// nothing to bucket (no input rows, or the field is missing everywhere)
+					return outErr
+				}
 				sort.Float64s(fieldValues)
 				min := fieldValues[0]
 				max := fieldValues[len(fieldValues)-1]
